@@ -73,20 +73,25 @@ def type_ok(kind: str, v) -> bool | None:
     raise ValueError(kind)
 
 
-def header_ok(merged: dict, family: str, direction: str, alg, strict: bool, caller: str, r7797: bool):
+def header_ok(merged: dict, family: str, direction: str, alg, strict: bool, caller: str, r7797: bool, cell: dict | None = None):
     """-> True (must be accepted) | False (must be refused) | None (don't-care)"""
     dontcare = False
+    plain_at_7797 = bool(cell and cell.get("regclass") == "plain" and r7797)
     if "alg" not in merged or not isinstance(merged["alg"], str):
         return False
     if family == "jwe" and ("enc" not in merged or not isinstance(merged["enc"], str)):
         return False
     registered = dict(TYPES)
-    if not (family == "jws" and r7797):
+    if not (family == "jws" and r7797) or plain_at_7797:
         registered.pop("b64")
     spec = ALG_SPECIFIC.get(alg, {}) if family == "jwe" else {}
     registered.update(spec)
     if caller != "none":
         registered["zzz"] = "int"
+    if family == "jws" and not r7797 and merged.get("b64") is False:
+        # the plain entry points cannot process an unencoded payload: refusing "b64": false there is legitimate (C01 demands
+        # that it is never processed as if it were absent), accepting an unprotected one as an unknown member also is
+        dontcare = True
     for name, v in merged.items():
         if name in ("alg", "enc", "zip"):
             continue
@@ -115,7 +120,15 @@ def header_ok(merged: dict, family: str, direction: str, alg, strict: bool, call
                 return False
     if "b64" in merged and family == "jws" and r7797:
         crit = merged.get("crit")
-        if not (isinstance(crit, list) and "b64" in crit):
+        if plain_at_7797:
+            # the RFC 7797 functions act on a *protected* b64 whatever registry they were given: its type and the crit rule hold;
+            # an unprotected one is, for a plain registry, just an unregistered member
+            in_protected = not (cell["param"] == "b64" and cell["pos"] != "protected")
+            if in_protected:
+                pb = cell["value"] if (cell["param"] == "b64" and cell["present"]) else False
+                if not isinstance(pb, bool) or not (isinstance(crit, list) and "b64" in crit):
+                    return False
+        elif not (isinstance(crit, list) and "b64" in crit):
             return False
     return None if dontcare else True
 
@@ -142,7 +155,7 @@ class Node:
         return self.ec, self.jec, self.jec_pub
 
 
-def registry_for(family: str, strict: bool, caller: str, r7797: bool):
+def registry_for(family: str, strict: bool, caller: str, r7797: bool, plain: bool = False):
     from joserfc.jws import JWSRegistry
     from joserfc.jwe import JWERegistry
     from joserfc.rfc7797 import JWSRegistry as R7797
@@ -154,7 +167,7 @@ def registry_for(family: str, strict: bool, caller: str, r7797: bool):
         extra = {"zzz": HeaderParameter("Z", "int", True)}
     if family == "jwe":
         return JWERegistry(header_registry=extra, algorithms=JW.ALLOW_ALL, strict_check_header=strict)
-    cls = R7797 if r7797 else JWSRegistry
+    cls = R7797 if (r7797 and not plain) else JWSRegistry
     return cls(header_registry=extra, algorithms=list(rjws.ALL_ALGS), strict_check_header=strict)
 
 
@@ -165,7 +178,7 @@ def execute(node: Node, cell: dict):
     strict, caller = cell["strict"], cell["caller"]
     family = "jwe" if op.startswith("jwe.") else "jws"
     r7797 = op.startswith("7797.")
-    reg = registry_for(family, strict, caller, r7797)
+    reg = registry_for(family, strict, caller, r7797, cell.get("regclass") == "plain")
     consume = any(x in op for x in ("deserialize", "decrypt", "decode", "validate"))
     if family == "jws":
         prot = {"alg": "HS256"}
@@ -391,6 +404,17 @@ def all_cells():
                                     continue
                                 cells.append({"op": op, "alg": alg, "pos": pos, "param": param, "vname": vname, "value": value,
                                               "present": present, "strict": strict, "caller": caller})
+    # the RFC 7797 entry points handed a plain jws.JWSRegistry: the b64 rules do not depend on the registry class
+    for op in JWS_OPS:
+        if not op.startswith("7797."):
+            continue
+        json_op = "json" in op
+        for pos in (["protected", "unprotected"] if json_op else ["protected"]):
+            for param in ("b64", "crit", "kid"):
+                for vname, value in VALUES:
+                    for strict in (True, False):
+                        cells.append({"op": op, "pos": pos, "param": param, "vname": vname, "value": value, "present": True,
+                                      "strict": strict, "caller": "none", "regclass": "plain"})
     # 'shadow' cells: a mistyped registered parameter in one position, a well-typed one of the same name in another
     bad = [v for v in VALUES if v[0] in ("int", "null", "list-int", "dict-empty", "true")]
     for op in JWS_OPS:
@@ -437,7 +461,7 @@ def judge(cell, outcome, merged, family, direction, alg, r7797):
     status, detail = outcome
     if status == "skip":
         return None
-    ok = header_ok(merged, family, direction, alg, cell["strict"], cell["caller"], r7797)
+    ok = header_ok(merged, family, direction, alg, cell["strict"], cell["caller"], r7797, cell)
     if cell.get("shadow"):
         # the JOSE header holds a registered parameter of the wrong type, whatever a second member of that name says
         if status == "ok":
@@ -474,7 +498,7 @@ def run(rng: Rng, tier: str, index: int) -> RunResult:
         v = judge(cell, outcome, merged, family, direction, alg, r7797)
         res.case(json.dumps({k: cell[k] for k in cell if k != "value"}, sort_keys=True))
         res.fired("%s:%s" % (direction, "bad-type" if cell["present"] else "missing"))
-        tr.add(cell["op"], cell.get("alg"), cell["pos"], cell.get("shadow"), cell["param"], cell["vname"], cell["strict"], cell["caller"], outcome[0])
+        tr.add(cell["op"], cell.get("alg"), cell["pos"], cell.get("shadow"), cell.get("regclass"), cell["param"], cell["vname"], cell["strict"], cell["caller"], outcome[0])
         if cell.get("shadow"):
             res.fired("%s:shadowed-mistyped" % direction)
         if len(res.samples) < 3:
